@@ -1,11 +1,14 @@
 #!/venv/bin/python
 """Re-run every kept seeded change (/verif/seeded/*) against the check recorded in its meta.json.
-usage: seeded_all.py [budget_s]   -> table; exit 1 if any change is missed."""
+usage: seeded_all.py [budget_s] [shard/nshards]   -> table; exit 1 if any change is missed."""
 import json, os, subprocess, sys
 budget = sys.argv[1] if len(sys.argv) > 1 else "60"
+shard, nshards = (int(x) for x in (sys.argv[2] if len(sys.argv) > 2 else "0/1").split("/"))
 root = "/verif/seeded"
 missed = 0
-for name in sorted(os.listdir(root)):
+for idx, name in enumerate(sorted(os.listdir(root))):
+    if idx % nshards != shard:
+        continue
     d = os.path.join(root, name)
     meta = json.load(open(os.path.join(d, "meta.json")))
     check = meta.get("verified_by_coordinator", {}).get("check") or meta.get("property")
